@@ -10,6 +10,7 @@ import (
 	"fmt"
 	"math"
 	"strconv"
+	"strings"
 	"unicode/utf8"
 
 	"github.com/cloudwego/dynamicgo/thrift"
@@ -36,11 +37,153 @@ func (g *tgen) c18Shape(root *Ty) []string {
 	for _, s := range g.structs {
 		f = append(f, fi(len(s.Fields)))
 		for _, fl := range s.Fields {
-			f = append(f, fi(int(fl.ID)), fi(fl.Req), fs(fl.Name), fb(fl.Def != ""))
+			f = append(f, fi(int(fl.ID)), fi(fl.Req), fs(c18Key(fl)), fb(fl.Def != ""))
 			f = append(f, g.c18Ty(fl.T)...)
 		}
 	}
 	return append(f, fi(g.structIndex(root)))
+}
+
+// JSON key of a field: its alias (api.key / go.tag) when it has one, else its name
+var c18Alias = map[*Fld]string{}
+
+func c18Key(f *Fld) string {
+	if a, ok := c18Alias[f]; ok {
+		return a
+	}
+	return f.Name
+}
+
+// the IDL of thriftgen with the alias annotations appended to the field lines (field names are unique within one IDL)
+func (g *tgen) c18Idl(root *Ty) string {
+	idl := g.idl(root)
+	for _, s := range g.structs {
+		for _, f := range s.Fields {
+			a, ok := c18Alias[f]
+			if !ok {
+				continue
+			}
+			def := ""
+			if f.Def != "" {
+				def = " = " + f.Def
+			}
+			ann := fmt.Sprintf(" (api.key = \"%s\")", a)
+			if len(a)%2 == 0 && !strings.ContainsAny(a, "'\",") { // a go.tag value ends at the first comma (json:"name,omitempty")
+				ann = fmt.Sprintf(" (go.tag = 'json:\"%s\"')", a)
+			}
+			// inside the block of this struct only (thriftgen's field names repeat across structs)
+			start := strings.Index(idl, "struct "+s.Name+" {\n")
+			if start < 0 {
+				continue
+			}
+			end := start + strings.Index(idl[start:], "}\n")
+			line := fmt.Sprintf("  %d: ", f.ID)
+			at := strings.Index(idl[start:end], "\n"+line)
+			if at < 0 {
+				continue
+			}
+			eol := start + at + 1 + strings.Index(idl[start+at+1:], "\n")
+			_ = def
+			idl = idl[:eol] + ann + idl[eol:]
+		}
+	}
+	return idl
+}
+
+const c18AliasSpecials = " !#$%&'()*+,-{|}~"
+
+// a struct whose members are looked up by alias through the native trie / hash map: aliases with bytes below '.' and above 'z',
+// the special byte at every position; key sets in the trie regime (few keys) and in the hash regime (>= 20 keys over a 2-letter alphabet)
+func (g *tgen) c18AliasStruct() *Ty {
+	r := g.r
+	g.nname++
+	S := &Ty{K: thrift.STRUCT, Name: fmt.Sprintf("S%d", g.nname)}
+	g.structs = append(g.structs, S)
+	used := map[string]bool{}
+	add := func(alias string) {
+		if used[alias] || alias == "" {
+			return
+		}
+		used[alias] = true
+		id := int16(len(S.Fields) + 1)
+		t := &Ty{K: []thrift.Type{thrift.I32, thrift.STRING, thrift.BOOL, thrift.I64, thrift.DOUBLE}[r.intn(5)]}
+		if r.chance(10) {
+			t = &Ty{K: thrift.LIST, Elem: &Ty{K: thrift.I16}}
+		}
+		f := &Fld{ID: id, Name: fmt.Sprintf("a%d_%d", g.nname, id), T: t, Req: []int{0, 2, 2, 1}[r.intn(4)]}
+		S.Fields = append(S.Fields, f)
+		c18Alias[f] = alias
+	}
+	sp := c18AliasSpecials[r.intn(len(c18AliasSpecials))]
+	switch r.intn(3) {
+	case 0: // hash regime
+		other := byte('a' + r.intn(26))
+		for tries := 0; len(S.Fields) < 20+r.intn(9) && tries < 400; tries++ {
+			b := make([]byte, 5+r.intn(2))
+			for i := range b {
+				b[i] = other
+				if r.bool() {
+					b[i] = sp
+				}
+			}
+			add(string(b))
+		}
+	case 1: // trie regime: words joined by the special byte
+		words := []string{"first", "last", "e", "mail", "name", "id", "age", "created", "updated", "at", "x", "zip", "code", "c"}
+		for k := 3 + r.intn(6); k > 0; k-- {
+			a := words[r.intn(len(words))]
+			for q := r.intn(3); q > 0; q-- {
+				a += string(sp) + words[r.intn(len(words))]
+			}
+			if r.chance(20) {
+				a += string(sp) + string(sp)
+			}
+			add(a)
+		}
+	default: // random short keys over the whole alphabet
+		alpha := c18AliasSpecials + "./09AZaz_"
+		for k := 2 + r.intn(8); k > 0; k-- {
+			b := make([]byte, 1+r.intn(6))
+			for i := range b {
+				b[i] = alpha[r.intn(len(alpha))]
+			}
+			add(string(b))
+		}
+	}
+	if len(S.Fields) == 0 {
+		add("a" + string(sp))
+	}
+	return S
+}
+
+var c18DbgIDL string
+
+// sanity: the keys the harness predicts are the aliases the IDL parser derived (a harness bug must not look like a finding)
+func c18CheckAliases(t *Ty, d *thrift.TypeDescriptor, seen map[*Ty]bool) {
+	if t == nil || d == nil {
+		return
+	}
+	switch t.K {
+	case thrift.STRUCT:
+		if seen[t] {
+			return
+		}
+		seen[t] = true
+		for _, f := range t.Fields {
+			fd := d.Struct().FieldById(thrift.FieldID(f.ID))
+			if fd == nil {
+				die("C18: field %d of %s missing in the descriptor", f.ID, t.Name)
+			}
+			if fd.Alias() != c18Key(f) {
+				die("C18: field %d of %s: alias %q, harness expects %q\n%s", f.ID, t.Name, fd.Alias(), c18Key(f), c18DbgIDL)
+			}
+			c18CheckAliases(f.T, fd.Type(), seen)
+		}
+	case thrift.LIST, thrift.SET:
+		c18CheckAliases(t.Elem, d.Elem(), seen)
+	case thrift.MAP:
+		c18CheckAliases(t.Elem, d.Elem(), seen)
+	}
 }
 
 // ---- valid UTF-8 string contents over an escape-relevant alphabet
@@ -407,29 +550,63 @@ func (p *jsp) value(b []byte, v *Val) []byte {
 		}
 		return p.str(b, v.S)
 	case thrift.LIST, thrift.SET:
+		// null elements at every position (before the first, between, after the last; also as the only members of an empty list):
+		// they are dropped, the count is the number of non-null elements
 		b = append(b, '[')
 		first := true
-		for _, e := range v.Elems {
-			if !first {
-				b = append(p.sp(b), ',')
-			}
-			first = false
-			b = p.value(p.sp(b), e)
-			if p.nullElem > 0 && p.r.chance(p.nullElem) {
-				b = append(append(p.sp(b), ','), "null"...)
-				p.tags |= 8
-			}
-		}
-		return append(p.sp(b), ']')
-	case thrift.MAP:
-		b = append(b, '{')
-		first := true
-		for i, e := range v.Elems {
+		sep := func() {
 			if !first {
 				b = append(p.sp(b), ',')
 			}
 			first = false
 			b = p.sp(b)
+		}
+		nulls := func() {
+			for k := 0; k < 3 && p.nullElem > 0 && p.r.chance(p.nullElem); k++ {
+				sep()
+				b = append(b, "null"...)
+				p.tags |= 8
+			}
+		}
+		for _, e := range v.Elems {
+			nulls()
+			sep()
+			b = p.value(b, e)
+		}
+		nulls()
+		return append(p.sp(b), ']')
+	case thrift.MAP:
+		// null-valued entries at every position, under fresh keys of the key type (dropped together with their keys)
+		b = append(b, '{')
+		first := true
+		sep := func() {
+			if !first {
+				b = append(p.sp(b), ',')
+			}
+			first = false
+			b = p.sp(b)
+		}
+		nk := 0
+		nulls := func() {
+			for k := 0; k < 3 && p.nullElem > 0 && p.r.chance(p.nullElem); k++ {
+				sep()
+				nk++
+				switch v.T.Key.K {
+				case thrift.STRING:
+					b = p.str(b, []byte("null_k"+strconv.Itoa(nk)))
+				case thrift.DOUBLE:
+					b = append(append(append(b, '"'), strconv.Itoa(1000+nk)...), '.', '5', '"')
+				default:
+					b = append(append(append(b, '"'), strconv.Itoa(100+nk)...), '"')
+				}
+				b = append(append(p.sp(b), ':'), p.sp(nil)...)
+				b = append(b, "null"...)
+				p.tags |= 8
+			}
+		}
+		for i, e := range v.Elems {
+			nulls()
+			sep()
 			k := v.Keys[i]
 			if k.T.K == thrift.STRING {
 				b = p.str(b, k.S)
@@ -441,6 +618,7 @@ func (p *jsp) value(b []byte, v *Val) []byte {
 			b = append(p.sp(b), ':')
 			b = p.value(p.sp(b), e)
 		}
+		nulls()
 		return append(p.sp(b), '}')
 	case thrift.STRUCT:
 		b = append(b, '{')
@@ -482,7 +660,7 @@ func (p *jsp) value(b []byte, v *Val) []byte {
 					if f.Req == 1 {
 						p.tags |= 2
 					}
-					member([]byte(f.Name), func(b []byte) []byte { return append(b, "null"...) })
+					member([]byte(c18Key(f)), func(b []byte) []byte { return append(b, "null"...) })
 				}
 			}
 		}
@@ -496,7 +674,7 @@ func (p *jsp) value(b []byte, v *Val) []byte {
 				}
 			}
 			fv := v.Fields[i]
-			member([]byte(fd.Name), func(b []byte) []byte { return p.value(b, fv) })
+			member([]byte(c18Key(fd)), func(b []byte) []byte { return p.value(b, fv) })
 			unknown()
 		}
 		nullsFor(len(v.FIDs))
@@ -648,11 +826,57 @@ func genC18J2T(r *rng, n int) []c18Item {
 				}
 			}
 		}
+		// aliases (api.key / go.tag) on some fields: the member is then selected by the alias only
+		na := 0
+		for _, s := range g.structs {
+			for _, f := range s.Fields {
+				na++
+				if !r.chance(20) {
+					continue
+				}
+				const alpha = c18AliasSpecials + "./09AZaz_"
+				b := make([]byte, 1+r.intn(6))
+				for i := range b {
+					b[i] = alpha[r.intn(len(alpha))]
+				}
+				pos := r.intn(len(b) + 1)
+				c18Alias[f] = string(b[:pos]) + strconv.Itoa(na) + string(b[pos:]) // the counter keeps the keys of one struct distinct
+			}
+		}
+		// every third descriptor carries a struct whose members live in the native trie / hash map under aliases with special bytes
+		if d%3 == 0 {
+			as := g.c18AliasStruct()
+			if r.bool() || len(root.Fields) == 0 {
+				root = as
+			} else {
+				host := g.structs[r.intn(len(g.structs)-1)]
+				t := as
+				switch r.intn(3) {
+				case 1:
+					t = &Ty{K: thrift.LIST, Elem: as}
+				case 2:
+					t = &Ty{K: thrift.MAP, Key: &Ty{K: thrift.STRING}, Elem: as}
+				}
+				id := int16(20001)
+				for clash := true; clash; {
+					clash = false
+					for _, f := range host.Fields {
+						if f.ID == id {
+							id++
+							clash = true
+						}
+					}
+				}
+				host.Fields = append(host.Fields, &Fld{ID: id, Name: fmt.Sprintf("al_%d", d), T: t, Req: 2 * r.intn(2)})
+			}
+		}
 		topts := thrift.Options{SetOptionalBitmap: r.bool(), UseDefaultValue: r.bool()}
-		desc, err := parseThrift(g.idl(root), topts)
+		desc, err := parseThrift(g.c18Idl(root), topts)
 		if err != nil {
 			continue
 		}
+		c18DbgIDL = g.c18Idl(root)
+		c18CheckAliases(root, desc, map[*Ty]bool{})
 		shape := g.c18Shape(root)
 		for k := 0; k < 4; k++ {
 			v := g.genValueOpt(root, r.chance(15))
@@ -670,7 +894,7 @@ func genC18J2T(r *rng, n int) []c18Item {
 					p.num = []int{0, 30, 80}[r.intn(3)]
 					p.nulls = []int{0, 0, 30, 80}[r.intn(4)]
 					p.unknown = []int{0, 0, 15, 40}[r.intn(4)]
-					p.nullElem = []int{0, 0, 0, 10}[r.intn(4)]
+					p.nullElem = []int{0, 0, 12, 45}[r.intn(4)]
 					p.strInts = optb&16 != 0 && r.chance(60)
 					p.rawBin = optb&32 != 0 && r.chance(70)
 					if r.chance(25) {
